@@ -108,10 +108,30 @@ AllAlpns == {"ntske/1", "none", "other", "refused"}
 \* pA pB Port(4001|4002) | warn Warning (type 3, critical; not a case of ReadData) |
 \* uc unknown type, critical | un unknown type, not critical |
 \* e0 e1 e2 eX Error(0|1|2|other) | eom End of Message
-AllRecs == {"np", "a15", "aX", "ck", "sA", "sB", "sH", "pA", "pB", "warn", "uc", "un",
-            "e0", "e1", "e2", "eX", "eom"}
+\* (+ the body length variants of uc / un / warn: see LenRecs)
+BaseRecs == {"np", "a15", "aX", "ck", "sA", "sB", "sH", "pA", "pB", "warn", "uc", "un",
+             "e0", "e1", "e2", "eX", "eom"}
+\* BODY LENGTH.  A record is a 4-byte header (critical bit, type, body length)
+\* and a body of the announced length.  The records above carry a body of the
+\* typical length for their type (2 bytes for the fixed-size ones, 2..8 for
+\* uc / un, an address literal, a 16-byte cookie; none for eom).  The body length
+\* of a record whose type the client does not interpret is free: it may be
+\* EMPTY (a flag-like record of a future extension) or ONE byte (shorter than
+\* anything ReadData reads with a fixed size).  uc0 un0 warn0: unknown critical /
+\* unknown non-critical / Warning with body length 0; uc1 un1 warn1: with body
+\* length 1.  What the property says about such a record depends on its type and
+\* critical bit only - never on its length.
+LenRecs == {"uc0", "uc1", "un0", "un1", "warn0", "warn1"}
+AllRecs == BaseRecs \cup LenRecs
 ErrRecs == {"e0", "e1", "e2", "eX"}
-HasBody(r) == r # "eom"
+UnkCrit == {"uc", "uc0", "uc1"}        \* unrecognised type, critical bit set
+UnkNon  == {"un", "un0", "un1"}        \* unrecognised type, critical bit clear
+Warns   == {"warn", "warn0", "warn1"}
+\* body length class: 0 (no body), 1 (one byte), 2 (typical: two bytes or more)
+BodyClass(r) == IF r \in {"eom", "uc0", "un0", "warn0"} THEN 0
+                ELSE IF r \in {"uc1", "un1", "warn1"} THEN 1 ELSE 2
+\* the stream can end / the peer can stall INSIDE the body (a part of it delivered)
+HasBody(r) == BodyClass(r) = 2
 
 Alg15 == 15      \* ntske.AES_SIV_CMAC_256
 AlgX  == 16
@@ -154,7 +174,7 @@ SvRec(v, r) ==
   [v EXCEPT !.n = @ + 1, !.last = r,
             !.nck = IF r = "ck" THEN @ + 1 ELSE @,
             !.a15 = @ \/ r = "a15",
-            !.bad = @ \/ r \in ErrRecs \cup {"uc"},
+            !.bad = @ \/ r \in ErrRecs \cup UnkCrit,
             !.eom = @ \/ r = "eom",
             !.srvs = CASE r = "sA" -> @ \cup {"A"} [] r = "sB" -> @ \cup {"B"}
                        [] r = "sH" -> @ \cup {"host"} [] OTHER -> @,
@@ -178,7 +198,7 @@ Summary(alpn, recs, cut) ==
 \* records on which ReadData returns an error: error records, and records whose
 \* type is no case of the switch (that includes Warning, type 3) with the
 \* critical bit set
-Stops(r) == r \in ErrRecs \cup {"uc", "warn"}
+Stops(r) == r \in ErrRecs \cup UnkCrit \cup Warns
 
 \* k: cookie records of this exchange received before
 RecData(d, r, s, k) ==
@@ -190,7 +210,7 @@ RecData(d, r, s, k) ==
     [] r = "sH"  -> [d EXCEPT !.server = "host"]
     [] r = "pA"  -> [d EXCEPT !.port = PortA]
     [] r = "pB"  -> [d EXCEPT !.port = PortB]
-    [] OTHER     -> d     \* np (value not looked at), un (swallowed)
+    [] OTHER     -> d     \* np (value not looked at), un un0 un1 (swallowed, whatever the length)
 
 \* the stream ends inside record r (w = "hdr" | "body"): binary.Read fails with
 \* (unexpected) EOF and leaves its target alone; the single reader.Read of a
@@ -481,7 +501,7 @@ SuccessOnlyIf ==
 \* Unrecognised non-critical records are ignored: receiving one changes neither
 \* the data nor the course of the exchange.
 IgnoresNonCriticalStep ==
-  (sv'.n = sv.n + 1 /\ sv'.last = "un") => (data' = data /\ conn' = conn /\ ret' = ret)
+  (sv'.n = sv.n + 1 /\ sv'.last \in UnkNon) => (data' = data /\ conn' = conn /\ ret' = ret)
 IgnoresNonCritical == [][IgnoresNonCriticalStep]_vars
 
 \* On success both sides hold the exporter values of that session.
